@@ -382,6 +382,54 @@ def thread_skeletons(cpp_src):
     return out
 
 
+def function_statements(cpp_src, qualified):
+    """flattened statement list of one function body: each simple statement as its token text, blocks as
+    'if (c) {' / '} else {' / 'while (c) {' / 'try {' / '} catch (X) {' / '}' markers.  Purely textual."""
+    src = strip_comments(cpp_src)
+    m = re.search(r'[\w:<>\*&\s]*\b%s\s*\([^)]*\)\s*(const)?\s*\{' % re.escape(qualified), src)
+    if not m:
+        return None
+    depth, i = 1, m.end()
+    while depth and i < len(src):
+        depth += {'{': 1, '}': -1}.get(src[i], 0)
+        i += 1
+    toks = tokenize(src[m.end():i - 1])[:-1]
+    out = []
+    cur = []
+    k = 0
+    n = len(toks)
+
+    def flush():
+        if cur:
+            out.append(' '.join(cur))
+            del cur[:]
+    pdepth = 0
+    while k < n:
+        t = toks[k].text
+        if t == '(':
+            pdepth += 1
+        elif t == ')':
+            pdepth -= 1
+        if t == ';' and pdepth == 0:
+            flush()
+        elif t == '{' and pdepth == 0:
+            cur.append('{')
+            flush()
+        elif t == '}' and pdepth == 0:
+            flush()
+            # '} else {' / '} catch (...) {' stay on one line
+            cur.append('}')
+            if k + 1 < n and toks[k + 1].text in ('else', 'catch'):
+                pass
+            else:
+                flush()
+        else:
+            cur.append(t)
+        k += 1
+    flush()
+    return out
+
+
 def write_if_changed(path, text):
     if os.path.exists(path) and open(path).read() == text:
         return
@@ -404,6 +452,20 @@ def main():
          'Definition thread_skeletons : list (string * bool * bool * bool * bool * bool) :=',
          '  [' + ';\n   '.join('(%s, %s, %s, %s, %s, %s)' % (coqstr(n), b(a), b(c), b(d), b(e), b(f)) for n, a, c, d, e, f in sk) + '].', '']
     write_if_changed(os.path.join(gen, 'Threads.v'), '\n'.join(L) + '\n')
+    fsrc = open(os.path.join(src, 'File.cpp')).read()
+    funcs = ['File::File', 'File::~File', 'File::read', 'File::write', 'File::close', 'File::setDefaultLogContainerSize',
+             'File::uncompressedFile2ReadWriteQueue', 'File::readWriteQueue2UncompressedFile',
+             'File::compressedFile2UncompressedFile', 'File::uncompressedFile2CompressedFile',
+             'File::uncompressedFileReadThread', 'File::uncompressedFileWriteThread', 'File::compressedFileReadThread', 'File::compressedFileWriteThread']
+    L = ['(* generated by translator/sync2coq.py — statement skeletons of the File functions that drive the pipeline.  Do not edit. *)',
+         'From Coq Require Import String List.', 'Import ListNotations.', 'Local Open Scope string_scope.', '']
+    for fn in funcs:
+        st = function_statements(fsrc, fn)
+        nm = 'skel_' + fn.replace('File::', '').replace('~', 'dtor_')
+        L.append('Definition %s : list string :=' % nm)
+        L.append('  [' + ';\n   '.join(coqstr(x) for x in (st if st is not None else ['<not found>'])) + '].')
+        L.append('')
+    write_if_changed(os.path.join(gen, 'FileSkel.v'), '\n'.join(L) + '\n')
     json.dump({'oq': {'members': qm, 'methods': [{k: v for k, v in m.items()} for m in qmeth]},
                'uf': {'members': um, 'methods': [{k: v for k, v in m.items()} for m in umeth]}}, open(jout, 'w'), indent=1)
 
